@@ -303,7 +303,7 @@ def write_evidence(pid, tier, seed, t0, units, kani, violations, known, undecide
     }
     os.makedirs(EVID, exist_ok=True)
     with open(os.path.join(EVID, pid + ".json"), "w") as f:
-        json.dump(ev, f, indent=1)
+        json.dump(ev, f, indent=1, default=str)
     return ev
 
 
